@@ -81,6 +81,13 @@ pub fn build(rng: &mut Rng, i: usize) -> PDB {
     }
     let matrix = |rng: &mut Rng| {
         let mut m = [[0.0f64; 4]; 3];
+        // now and then a matrix with a particular value: the identity, all zeros, a pure translation
+        match rng.below(8) {
+            0 => return TransformationMatrix::identity(),
+            1 => return TransformationMatrix::from_matrix(m),
+            2 => return TransformationMatrix::translation(1.0, -2.5, 0.125),
+            _ => {}
+        }
         for r in m.iter_mut() {
             for v in r.iter_mut() {
                 *v = value(rng, 2, true);
